@@ -2511,100 +2511,79 @@ From OxiVerif Require Import Mgr.OomOwnZK Mgr.OomOwnZKProofs Mgr.OomOwnZGc Mgr.O
 (* (1) BALANCE + FRAME + COUNTS-preservation, no hypothesis: after a result the thread owns the
    caller's tokens plus one for the result, after Err(OutOfMemory) exactly the caller's (multisets);
    the tokens of other owners - the ZBDD manager's tautology chain - are part of [cown s] and
-   untouched; every old node keeps level and children; [CInv] is preserved *)
-Theorem C14_ownz_balance_set : forall terms nl tid cap gt C cget cadd par fuel s (c : C) op f g,
+   untouched; every old node keeps level and children; [CInv] is preserved.
+   Statements in the order: apply_union / intsec / diff; apply_not; apply_symm_diff; apply_ite; the operator entry
+   points of BooleanFunction for ZBDDFunction (and / or / xor / imp_strict one phase, imp through ite, nand / nor /
+   equiv = set operation, then the complement with the intermediate result owned by an EdgeDropGuard) *)
+
+Theorem C14_ownz_balance :
+  (forall terms nl tid cap gt C cget cadd par fuel s (c : C) op f g,
   match zapply_o terms nl tid cap gt C cget cadd par guards_code fuel s c op f g with
   | EOk s' _ r => Permutation (cown s') (toke tid r ++ cown s) /\ ext s s' /\
                   (ConcProofs.CInv KZbdd terms nl s -> ConcProofs.CInv KZbdd terms nl s')
   | EErr s' _ => Permutation (cown s') (cown s) /\ ext s s' /\
                  (ConcProofs.CInv KZbdd terms nl s -> ConcProofs.CInv KZbdd terms nl s')
   | EStuck => True
-  end.
-Proof. exact ownz_balance_set. Qed.
-Print Assumptions C14_ownz_balance_set.
-
-Theorem C14_ownz_balance_not : forall terms nl tid cap gt C cget cadd par fuel s (c : C) f,
+  end) /\
+  (forall terms nl tid cap gt C cget cadd par fuel s (c : C) f,
   match zapply_not_o terms nl tid cap gt C cget cadd par guards_code fuel s c f with
   | EOk s' _ r => Permutation (cown s') (toke tid r ++ cown s) /\ ext s s' /\
                   (ConcProofs.CInv KZbdd terms nl s -> ConcProofs.CInv KZbdd terms nl s')
   | EErr s' _ => Permutation (cown s') (cown s) /\ ext s s' /\
                  (ConcProofs.CInv KZbdd terms nl s -> ConcProofs.CInv KZbdd terms nl s')
   | EStuck => True
-  end.
-Proof. exact ownz_balance_not. Qed.
-Print Assumptions C14_ownz_balance_not.
-
-Theorem C14_ownz_balance_symm : forall terms nl tid cap gt C cget cadd par fuel s (c : C) f g,
+  end) /\
+  (forall terms nl tid cap gt C cget cadd par fuel s (c : C) f g,
   match zsymm_o terms nl tid cap gt C cget cadd par guards_code fuel s c f g with
   | EOk s' _ r => Permutation (cown s') (toke tid r ++ cown s) /\ ext s s' /\
                   (ConcProofs.CInv KZbdd terms nl s -> ConcProofs.CInv KZbdd terms nl s')
   | EErr s' _ => Permutation (cown s') (cown s) /\ ext s s' /\
                  (ConcProofs.CInv KZbdd terms nl s -> ConcProofs.CInv KZbdd terms nl s')
   | EStuck => True
-  end.
-Proof. exact ownz_balance_symm. Qed.
-Print Assumptions C14_ownz_balance_symm.
-
-Theorem C14_ownz_balance_ite : forall terms nl tid cap gt C cget cadd par fuel s (c : C) f g h,
+  end) /\
+  (forall terms nl tid cap gt C cget cadd par fuel s (c : C) f g h,
   match zite_o terms nl tid cap gt C cget cadd par guards_code fuel s c f g h with
   | EOk s' _ r => Permutation (cown s') (toke tid r ++ cown s) /\ ext s s' /\
                   (ConcProofs.CInv KZbdd terms nl s -> ConcProofs.CInv KZbdd terms nl s')
   | EErr s' _ => Permutation (cown s') (cown s) /\ ext s s' /\
                  (ConcProofs.CInv KZbdd terms nl s -> ConcProofs.CInv KZbdd terms nl s')
   | EStuck => True
-  end.
-Proof. exact ownz_balance_ite. Qed.
-Print Assumptions C14_ownz_balance_ite.
-
-(* the operator entry points of BooleanFunction for ZBDDFunction: and / or / xor / imp_strict one
-   phase, imp through ite, nand / nor / equiv = set operation, then the complement with the
-   intermediate result owned by an EdgeDropGuard *)
-Theorem C14_ownz_balance_op : forall terms nl tid cap gt C cget cadd par fuel s (c : C) op f g,
+  end) /\
+  (forall terms nl tid cap gt C cget cadd par fuel s (c : C) op f g,
   match zop_o terms nl tid cap gt C cget cadd par guards_code fuel s c op f g with
   | EOk s' _ r => Permutation (cown s') (toke tid r ++ cown s) /\ ext s s' /\
                   (ConcProofs.CInv KZbdd terms nl s -> ConcProofs.CInv KZbdd terms nl s')
   | EErr s' _ => Permutation (cown s') (cown s) /\ ext s s' /\
                  (ConcProofs.CInv KZbdd terms nl s -> ConcProofs.CInv KZbdd terms nl s')
   | EStuck => True
-  end.
-Proof. exact ownz_balance_op. Qed.
-Print Assumptions C14_ownz_balance_op.
+  end).
+Proof. exact (conj ownz_balance_set (conj ownz_balance_not (conj ownz_balance_symm (conj ownz_balance_ite ownz_balance_op)))). Qed.
+Print Assumptions C14_ownz_balance.
 
-(* (2) as a snapshot of the manager after ANY outcome: well-formed, reference counts exact *)
-Theorem C14_ownz_counts_set : forall terms nl tid cap gt C cget cadd par fuel s (c : C) op f g,
+(* (2) as a snapshot of the manager after ANY outcome: well-formed, reference counts exact (same order) *)
+Theorem C14_ownz_counts :
+  (forall terms nl tid cap gt C cget cadd par fuel s (c : C) op f g,
   ConcProofs.CInv KZbdd terms nl s -> terms_unique_b terms = true ->
   forall s', eres_st (zapply_o terms nl tid cap gt C cget cadd par guards_code fuel s c op f g) = Some s' ->
-  ConcProofs.CInv KZbdd terms nl s' /\ WF (to_snap KZbdd terms nl s') /\ rc_exact_b (to_snap KZbdd terms nl s') [] = true.
-Proof. exact ownz_counts_set. Qed.
-Print Assumptions C14_ownz_counts_set.
-
-Theorem C14_ownz_counts_not : forall terms nl tid cap gt C cget cadd par fuel s (c : C) f,
+  ConcProofs.CInv KZbdd terms nl s' /\ WF (to_snap KZbdd terms nl s') /\ rc_exact_b (to_snap KZbdd terms nl s') [] = true) /\
+  (forall terms nl tid cap gt C cget cadd par fuel s (c : C) f,
   ConcProofs.CInv KZbdd terms nl s -> terms_unique_b terms = true ->
   forall s', eres_st (zapply_not_o terms nl tid cap gt C cget cadd par guards_code fuel s c f) = Some s' ->
-  ConcProofs.CInv KZbdd terms nl s' /\ WF (to_snap KZbdd terms nl s') /\ rc_exact_b (to_snap KZbdd terms nl s') [] = true.
-Proof. exact ownz_counts_not. Qed.
-Print Assumptions C14_ownz_counts_not.
-
-Theorem C14_ownz_counts_symm : forall terms nl tid cap gt C cget cadd par fuel s (c : C) f g,
+  ConcProofs.CInv KZbdd terms nl s' /\ WF (to_snap KZbdd terms nl s') /\ rc_exact_b (to_snap KZbdd terms nl s') [] = true) /\
+  (forall terms nl tid cap gt C cget cadd par fuel s (c : C) f g,
   ConcProofs.CInv KZbdd terms nl s -> terms_unique_b terms = true ->
   forall s', eres_st (zsymm_o terms nl tid cap gt C cget cadd par guards_code fuel s c f g) = Some s' ->
-  ConcProofs.CInv KZbdd terms nl s' /\ WF (to_snap KZbdd terms nl s') /\ rc_exact_b (to_snap KZbdd terms nl s') [] = true.
-Proof. exact ownz_counts_symm. Qed.
-Print Assumptions C14_ownz_counts_symm.
-
-Theorem C14_ownz_counts_ite : forall terms nl tid cap gt C cget cadd par fuel s (c : C) f g h,
+  ConcProofs.CInv KZbdd terms nl s' /\ WF (to_snap KZbdd terms nl s') /\ rc_exact_b (to_snap KZbdd terms nl s') [] = true) /\
+  (forall terms nl tid cap gt C cget cadd par fuel s (c : C) f g h,
   ConcProofs.CInv KZbdd terms nl s -> terms_unique_b terms = true ->
   forall s', eres_st (zite_o terms nl tid cap gt C cget cadd par guards_code fuel s c f g h) = Some s' ->
-  ConcProofs.CInv KZbdd terms nl s' /\ WF (to_snap KZbdd terms nl s') /\ rc_exact_b (to_snap KZbdd terms nl s') [] = true.
-Proof. exact ownz_counts_ite. Qed.
-Print Assumptions C14_ownz_counts_ite.
-
-Theorem C14_ownz_counts_op : forall terms nl tid cap gt C cget cadd par fuel s (c : C) op f g,
+  ConcProofs.CInv KZbdd terms nl s' /\ WF (to_snap KZbdd terms nl s') /\ rc_exact_b (to_snap KZbdd terms nl s') [] = true) /\
+  (forall terms nl tid cap gt C cget cadd par fuel s (c : C) op f g,
   ConcProofs.CInv KZbdd terms nl s -> terms_unique_b terms = true ->
   forall s', eres_st (zop_o terms nl tid cap gt C cget cadd par guards_code fuel s c op f g) = Some s' ->
-  ConcProofs.CInv KZbdd terms nl s' /\ WF (to_snap KZbdd terms nl s') /\ rc_exact_b (to_snap KZbdd terms nl s') [] = true.
-Proof. exact ownz_counts_op. Qed.
-Print Assumptions C14_ownz_counts_op.
+  ConcProofs.CInv KZbdd terms nl s' /\ WF (to_snap KZbdd terms nl s') /\ rc_exact_b (to_snap KZbdd terms nl s') [] = true).
+Proof. exact (conj ownz_counts_set (conj ownz_counts_not (conj ownz_counts_symm (conj ownz_counts_ite ownz_counts_op)))). Qed.
+Print Assumptions C14_ownz_counts.
 
 (* (3) ROLLBACK: after Err(OutOfMemory) `Manager::gc` (collect, Mgr/ConcGc.v) leaves exactly the nodes of the
    ORIGINAL table reachable from the caller's tokens, entry by entry (level, children, count) the table a
@@ -2622,35 +2601,31 @@ Theorem C14_own_rolled_back_meaning : forall k terms nl s s',
 Proof. intros. reflexivity. Qed.
 Print Assumptions C14_own_rolled_back_meaning.
 
-Theorem C14_ownz_err_collect_set : forall terms nl tid cap gt C cget cadd par fuel s (c : C) op f g s' c',
+(* set operations; ite; the operator entry points *)
+Theorem C14_ownz_err_collect :
+  (forall terms nl tid cap gt C cget cadd par fuel s (c : C) op f g s' c',
   ConcProofs.CInv KZbdd terms nl s ->
   zapply_o terms nl tid cap gt C cget cadd par guards_code fuel s c op f g = EErr s' c' ->
-  krolled_back KZbdd terms nl s s'.
-Proof. exact ownz_err_collect_set. Qed.
-Print Assumptions C14_ownz_err_collect_set.
-
-Theorem C14_ownz_err_collect_ite : forall terms nl tid cap gt C cget cadd par fuel s (c : C) f g h s' c',
+  krolled_back KZbdd terms nl s s') /\
+  (forall terms nl tid cap gt C cget cadd par fuel s (c : C) f g h s' c',
   ConcProofs.CInv KZbdd terms nl s ->
   zite_o terms nl tid cap gt C cget cadd par guards_code fuel s c f g h = EErr s' c' ->
-  krolled_back KZbdd terms nl s s'.
-Proof. exact ownz_err_collect_ite. Qed.
-Print Assumptions C14_ownz_err_collect_ite.
-
-Theorem C14_ownz_err_collect_op : forall terms nl tid cap gt C cget cadd par fuel s (c : C) op f g s' c',
+  krolled_back KZbdd terms nl s s') /\
+  (forall terms nl tid cap gt C cget cadd par fuel s (c : C) op f g s' c',
   ConcProofs.CInv KZbdd terms nl s ->
   zop_o terms nl tid cap gt C cget cadd par guards_code fuel s c op f g = EErr s' c' ->
-  krolled_back KZbdd terms nl s s'.
-Proof. exact ownz_err_collect_op. Qed.
-Print Assumptions C14_ownz_err_collect_op.
+  krolled_back KZbdd terms nl s s').
+Proof. exact (conj ownz_err_collect_set (conj ownz_err_collect_ite ownz_err_collect_op)). Qed.
+Print Assumptions C14_ownz_err_collect.
 
 (* non-vacuity: [exz] = a two-variable ZBDD manager as the code builds it (tautology chain owned by the
    manager = tokens of owner 1, x0 and x1 owned by thread 0) satisfies the hypotheses; every outcome occurs;
    nand / equiv need two slots (two phases) and fail after the first phase with 6 slots *)
-Theorem C14_ownz_example_state : ConcProofs.CInv KZbdd zterms 2 exz /\ terms_unique_b zterms = true.
-Proof. exact exz_inv. Qed.
-Print Assumptions C14_ownz_example_state.
-
-Theorem C14_ownz_example_ops : forall p,
+(* equiv with 6 slots: the symmetric difference created node 6, the complement ran out of memory; the guard
+   released node 6 (count 0), the tokens are literally the caller's, the collection returns [exz] *)
+Theorem C14_ownz_example :
+  (ConcProofs.CInv KZbdd zterms 2 exz /\ terms_unique_b zterms = true) /\
+  (forall p,
   map (fun op => map (fun cap => zout (zop_on zterms 2 0 cap p guards_code exz op (RN 3) (RN 5))) [5; 6; 7; 8])
       [OAnd; ONand; ONor; OXor; OEquiv; OImp] =
   [ [(1, Some 5, Some 4, None, Some true); (0, Some 6, Some 5, Some (RN 6), Some true);
@@ -2664,14 +2639,8 @@ Theorem C14_ownz_example_ops : forall p,
     [(1, Some 5, Some 4, None, Some true); (1, Some 6, Some 4, None, Some true);
      (0, Some 7, Some 5, Some (RN 7), Some true); (0, Some 7, Some 5, Some (RN 7), Some true)];
     [(1, Some 5, Some 4, None, Some true); (0, Some 6, Some 5, Some (RN 6), Some true);
-     (0, Some 6, Some 5, Some (RN 6), Some true); (0, Some 6, Some 5, Some (RN 6), Some true)] ].
-Proof. exact exz_ops. Qed.
-Print Assumptions C14_ownz_example_ops.
-
-(* equiv with 6 slots: the symmetric difference created node 6, the complement ran out of memory; the guard
-   released node 6 (count 0), the tokens are literally the caller's, the collection returns [exz] *)
-Theorem C14_ownz_example_garbage :
-  match zop_on zterms 2 0 6 false guards_code exz OEquiv (RN 3) (RN 5) with
+     (0, Some 6, Some 5, Some (RN 6), Some true); (0, Some 6, Some 5, Some (RN 6), Some true)] ]) /\
+  (  match zop_on zterms 2 0 6 false guards_code exz OEquiv (RN 3) (RN 5) with
   | EErr s' _ =>
       cown s' = cown exz /\
       map (fun p => (fst p, crc (snd p))) (cn s') =
@@ -2679,9 +2648,9 @@ Theorem C14_ownz_example_garbage :
          (2%positive, 1%N); (1%positive, 4%N)] /\
       collect KZbdd zterms 2 s' = exz
   | _ => False
-  end.
-Proof. exact exz_equiv_garbage. Qed.
-Print Assumptions C14_ownz_example_garbage.
+  end).
+Proof. exact (conj exz_inv (conj exz_ops exz_equiv_garbage)). Qed.
+Print Assumptions C14_ownz_example.
 
 (* teeth: seeded/C14g - equiv holding the symmetric difference as a bare edge while the complement runs
    (`let res = not(&xor)?; drop_edge(xor); Ok(res)`, [guards_late_equiv]): on [exz] with 6 slots the run fails
@@ -2706,98 +2675,81 @@ Print Assumptions C14_ownz_balance_late_equiv_refuted.
 
 (* the complement-edge rule set: tokens are TAGGED edges ([toke tid e] = [(tid, e)] for an inner edge);
    `reduce` retags its two owned children and the returned edge, `not_owned` retags the result *)
-Theorem C14_ownc_balance_bin : forall terms nl tid cap lt C cget cadd par fuel s (c : C) op f g,
+(* apply_bin And / Xor; not_edge; the eight operators; apply_ite; last: not_edge is a tag flip on a clone, it allocates
+   nothing and never reports out-of-memory *)
+Theorem C14_ownc_balance :
+  (forall terms nl tid cap lt C cget cadd par fuel s (c : C) op f g,
   match cbin_o terms nl tid cap lt C cget cadd par guards_code fuel s c op f g with
   | EOk s' _ r => Permutation (cown s') (toke tid r ++ cown s) /\ ext s s' /\
                   (ConcProofs.CInv KBcdd terms nl s -> ConcProofs.CInv KBcdd terms nl s')
   | EErr s' _ => Permutation (cown s') (cown s) /\ ext s s' /\
                  (ConcProofs.CInv KBcdd terms nl s -> ConcProofs.CInv KBcdd terms nl s')
   | EStuck => True
-  end.
-Proof. exact ownc_balance_bin. Qed.
-Print Assumptions C14_ownc_balance_bin.
-
-Theorem C14_ownc_balance_not : forall terms nl tid C s (c : C) f,
+  end) /\
+  (forall terms nl tid C s (c : C) f,
   match cnot_o terms tid C s c f with
   | EOk s' _ r => Permutation (cown s') (toke tid r ++ cown s) /\ ext s s' /\
                   (ConcProofs.CInv KBcdd terms nl s -> ConcProofs.CInv KBcdd terms nl s')
   | EErr s' _ => Permutation (cown s') (cown s) /\ ext s s' /\
                  (ConcProofs.CInv KBcdd terms nl s -> ConcProofs.CInv KBcdd terms nl s')
   | EStuck => True
-  end.
-Proof. exact ownc_balance_not. Qed.
-Print Assumptions C14_ownc_balance_not.
-
-Theorem C14_ownc_balance_op : forall terms nl tid cap lt C cget cadd par fuel s (c : C) o f g,
+  end) /\
+  (forall terms nl tid cap lt C cget cadd par fuel s (c : C) o f g,
   match cop_o terms nl tid cap lt C cget cadd par guards_code fuel s c o f g with
   | EOk s' _ r => Permutation (cown s') (toke tid r ++ cown s) /\ ext s s' /\
                   (ConcProofs.CInv KBcdd terms nl s -> ConcProofs.CInv KBcdd terms nl s')
   | EErr s' _ => Permutation (cown s') (cown s) /\ ext s s' /\
                  (ConcProofs.CInv KBcdd terms nl s -> ConcProofs.CInv KBcdd terms nl s')
   | EStuck => True
-  end.
-Proof. exact ownc_balance_op. Qed.
-Print Assumptions C14_ownc_balance_op.
-
-Theorem C14_ownc_balance_ite : forall terms nl tid cap lt C cget cadd par fuel s (c : C) f g h,
+  end) /\
+  (forall terms nl tid cap lt C cget cadd par fuel s (c : C) f g h,
   match cite_o terms nl tid cap lt C cget cadd par guards_code fuel s c f g h with
   | EOk s' _ r => Permutation (cown s') (toke tid r ++ cown s) /\ ext s s' /\
                   (ConcProofs.CInv KBcdd terms nl s -> ConcProofs.CInv KBcdd terms nl s')
   | EErr s' _ => Permutation (cown s') (cown s) /\ ext s s' /\
                  (ConcProofs.CInv KBcdd terms nl s -> ConcProofs.CInv KBcdd terms nl s')
   | EStuck => True
-  end.
-Proof. exact ownc_balance_ite. Qed.
-Print Assumptions C14_ownc_balance_ite.
+  end) /\
+  (forall terms tid C s (c : C) f,
+  eres_code (cnot_o terms tid C s c f) <> 1).
+Proof. exact (conj ownc_balance_bin (conj ownc_balance_not (conj ownc_balance_op (conj ownc_balance_ite ownc_not_never_oom)))). Qed.
+Print Assumptions C14_ownc_balance.
 
-(* not_edge is a tag flip on a clone: it allocates nothing and never reports out-of-memory *)
-Theorem C14_ownc_not_never_oom : forall terms tid C s (c : C) f,
-  eres_code (cnot_o terms tid C s c f) <> 1.
-Proof. exact ownc_not_never_oom. Qed.
-Print Assumptions C14_ownc_not_never_oom.
-
-Theorem C14_ownc_counts_op : forall terms nl tid cap lt C cget cadd par fuel s (c : C) o f g,
+(* operators; not_edge; ite *)
+Theorem C14_ownc_counts :
+  (forall terms nl tid cap lt C cget cadd par fuel s (c : C) o f g,
   ConcProofs.CInv KBcdd terms nl s -> terms_unique_b terms = true ->
   forall s', eres_st (cop_o terms nl tid cap lt C cget cadd par guards_code fuel s c o f g) = Some s' ->
-  ConcProofs.CInv KBcdd terms nl s' /\ WF (to_snap KBcdd terms nl s') /\ rc_exact_b (to_snap KBcdd terms nl s') [] = true.
-Proof. exact ownc_counts_op. Qed.
-Print Assumptions C14_ownc_counts_op.
-
-Theorem C14_ownc_counts_not : forall terms nl tid C s (c : C) f,
+  ConcProofs.CInv KBcdd terms nl s' /\ WF (to_snap KBcdd terms nl s') /\ rc_exact_b (to_snap KBcdd terms nl s') [] = true) /\
+  (forall terms nl tid C s (c : C) f,
   ConcProofs.CInv KBcdd terms nl s -> terms_unique_b terms = true ->
   forall s', eres_st (cnot_o terms tid C s c f) = Some s' ->
-  ConcProofs.CInv KBcdd terms nl s' /\ WF (to_snap KBcdd terms nl s') /\ rc_exact_b (to_snap KBcdd terms nl s') [] = true.
-Proof. exact ownc_counts_not. Qed.
-Print Assumptions C14_ownc_counts_not.
-
-Theorem C14_ownc_counts_ite : forall terms nl tid cap lt C cget cadd par fuel s (c : C) f g h,
+  ConcProofs.CInv KBcdd terms nl s' /\ WF (to_snap KBcdd terms nl s') /\ rc_exact_b (to_snap KBcdd terms nl s') [] = true) /\
+  (forall terms nl tid cap lt C cget cadd par fuel s (c : C) f g h,
   ConcProofs.CInv KBcdd terms nl s -> terms_unique_b terms = true ->
   forall s', eres_st (cite_o terms nl tid cap lt C cget cadd par guards_code fuel s c f g h) = Some s' ->
-  ConcProofs.CInv KBcdd terms nl s' /\ WF (to_snap KBcdd terms nl s') /\ rc_exact_b (to_snap KBcdd terms nl s') [] = true.
-Proof. exact ownc_counts_ite. Qed.
-Print Assumptions C14_ownc_counts_ite.
+  ConcProofs.CInv KBcdd terms nl s' /\ WF (to_snap KBcdd terms nl s') /\ rc_exact_b (to_snap KBcdd terms nl s') [] = true).
+Proof. exact (conj ownc_counts_op (conj ownc_counts_not ownc_counts_ite)). Qed.
+Print Assumptions C14_ownc_counts.
 
-Theorem C14_ownc_err_collect_op : forall terms nl tid cap lt C cget cadd par fuel s (c : C) o f g s' c',
+(* operators; ite *)
+Theorem C14_ownc_err_collect :
+  (forall terms nl tid cap lt C cget cadd par fuel s (c : C) o f g s' c',
   ConcProofs.CInv KBcdd terms nl s ->
   cop_o terms nl tid cap lt C cget cadd par guards_code fuel s c o f g = EErr s' c' ->
-  krolled_back KBcdd terms nl s s'.
-Proof. exact ownc_err_collect_op. Qed.
-Print Assumptions C14_ownc_err_collect_op.
-
-Theorem C14_ownc_err_collect_ite : forall terms nl tid cap lt C cget cadd par fuel s (c : C) f g h s' c',
+  krolled_back KBcdd terms nl s s') /\
+  (forall terms nl tid cap lt C cget cadd par fuel s (c : C) f g h s' c',
   ConcProofs.CInv KBcdd terms nl s ->
   cite_o terms nl tid cap lt C cget cadd par guards_code fuel s c f g h = EErr s' c' ->
-  krolled_back KBcdd terms nl s s'.
-Proof. exact ownc_err_collect_ite. Qed.
-Print Assumptions C14_ownc_err_collect_ite.
+  krolled_back KBcdd terms nl s s').
+Proof. exact (conj ownc_err_collect_op ownc_err_collect_ite). Qed.
+Print Assumptions C14_ownc_err_collect.
 
 (* non-vacuity and teeth on [exc] (three variables, node 4 = (x0 ? x1 : x2), node 5 = (x0 ? x2 : not x1), five
    owned edges two of which are complemented) *)
-Theorem C14_ownc_example_state : ConcProofs.CInv KBcdd cterms 3 exc /\ terms_unique_b cterms = true.
-Proof. exact exc_inv. Qed.
-Print Assumptions C14_ownc_example_state.
-
-Theorem C14_ownc_example_ops : forall p,
+Theorem C14_ownc_example :
+  (ConcProofs.CInv KBcdd cterms 3 exc /\ terms_unique_b cterms = true) /\
+  (forall p,
   map (fun op => map (fun cap => cout (cop_on cterms 3 0 cap p guards_code exc op (cN 4) (cN 5))) [5; 6; 7; 8])
       [OAnd; OXor; OEquiv] =
   [ [(1, Some 5, Some 5, None, Some true); (1, Some 6, Some 5, None, Some true);
@@ -2805,12 +2757,8 @@ Theorem C14_ownc_example_ops : forall p,
     [(1, Some 5, Some 5, None, Some true); (1, Some 6, Some 5, None, Some true);
      (0, Some 7, Some 6, Some (cNn 7), Some true); (0, Some 7, Some 6, Some (cNn 7), Some true)];
     [(1, Some 5, Some 5, None, Some true); (1, Some 6, Some 5, None, Some true);
-     (0, Some 7, Some 6, Some (cN 7), Some true); (0, Some 7, Some 6, Some (cN 7), Some true)] ].
-Proof. exact exc_ops. Qed.
-Print Assumptions C14_ownc_example_ops.
-
-Theorem C14_ownc_example_garbage :
-  match cop_on cterms 3 0 6 false guards_code exc OAnd (cN 4) (cN 5) with
+     (0, Some 7, Some 6, Some (cN 7), Some true); (0, Some 7, Some 6, Some (cN 7), Some true)] ]) /\
+  (  match cop_on cterms 3 0 6 false guards_code exc OAnd (cN 4) (cN 5) with
   | EErr s' _ =>
       cown s' = cown exc /\
       map (fun p => (fst p, crc (snd p))) (cn s') =
@@ -2818,30 +2766,31 @@ Theorem C14_ownc_example_garbage :
          (2%positive, 3%N); (1%positive, 1%N)] /\
       collect KBcdd cterms 3 s' = exc
   | _ => False
-  end.
-Proof. exact exc_and_garbage. Qed.
-Print Assumptions C14_ownc_example_garbage.
+  end).
+Proof. exact (conj exc_inv (conj exc_ops exc_and_garbage)). Qed.
+Print Assumptions C14_ownc_example.
 
 (* the recursor guards created after both `?` (binary: and; ternary: ite), 6 slots: one token leaked, node 6
    survives the collection; the code's placement fails on the same inputs and satisfies the statement *)
 Theorem C14_ownc_balance_late_refuted : forall p,
-  cleaks exc (cop_on cterms 3 0 6 p guards_late_all exc OAnd (cN 4) (cN 5)) /\
-  cleaks exc (cite_on cterms 3 0 6 p guards_late_ternary exc (cN 2) (cN 4) (cN 5)) /\
+  (match cop_on cterms 3 0 6 p guards_late_all exc OAnd (cN 4) (cN 5) with
+   | EErr s' _ =>
+       ~ Permutation (cown s') (cown exc) /\
+       length (cown s') = S (length (cown exc)) /\
+       exists id, cfind (cn exc) id = None /\
+                  cfind (cn (collect KBcdd cterms 3 s')) id <> None
+   | _ => False
+   end) /\
+  (match cite_on cterms 3 0 6 p guards_late_ternary exc (cN 2) (cN 4) (cN 5) with
+   | EErr s' _ =>
+       ~ Permutation (cown s') (cown exc) /\
+       length (cown s') = S (length (cown exc)) /\
+       exists id, cfind (cn exc) id = None /\
+                  cfind (cn (collect KBcdd cterms 3 s')) id <> None
+   | _ => False
+   end) /\
   kown_post KBcdd cterms 3 0 unit exc (cop_on cterms 3 0 6 p guards_code exc OAnd (cN 4) (cN 5)) /\
   eres_code (cop_on cterms 3 0 6 p guards_code exc OAnd (cN 4) (cN 5)) = 1 /\
   eres_code (cite_on cterms 3 0 6 p guards_code exc (cN 2) (cN 4) (cN 5)) = 1.
 Proof. exact ownc_balance_late_refuted. Qed.
 Print Assumptions C14_ownc_balance_late_refuted.
-
-Theorem C14_ownc_leaks_meaning : forall (s : cst) (o : eres unit),
-  cleaks s o <->
-  match o with
-  | EErr s' _ =>
-      ~ Permutation (cown s') (cown s) /\
-      length (cown s') = S (length (cown s)) /\
-      exists id, cfind (cn s) id = None /\
-                 cfind (cn (collect KBcdd cterms 3 s')) id <> None
-  | _ => False
-  end.
-Proof. intros. reflexivity. Qed.
-Print Assumptions C14_ownc_leaks_meaning.
